@@ -307,9 +307,9 @@ func init() {
 	}
 
 	register(&mc.Property{
-		ID:    "C13",
-		Level: "model_checking",
-		Rule: "choice-tree enumeration of inputs to cbor.Deterministic executed in watchdog-supervised workers: all byte strings of length <=2 (quick) / <=3 (thorough, 16.8 M); all strings of length <=4 (quick) / <=5 (thorough) over a 23-byte grammar alphabet; every head of the subset with an argument from a 32-value boundary list (incl. 2^62, 2^63+-1, 2^64-k for k<=16) in every head width, 0..3 content bytes, in 5 nesting contexts; every generated nested item with <=4 (quick) / <=5 (thorough) nodes, depth <=3, unmutated and with one mutation (head widened, length/count replaced by each boundary value, key pair swapped/duplicated, truncation at every offset, trailing byte). Oracle: reference recogniser refcbor.Deterministic (total, uint64 arithmetic); panic counts as refusal, non-termination (watchdog) is a violation. Non-trivial = reference made a verdict the implementation matched; distinct by input hash.",
+		ID:          "C13",
+		Level:       "model_checking",
+		Rule:        "choice-tree enumeration of inputs to cbor.Deterministic executed in watchdog-supervised workers: all byte strings of length <=2 (quick) / <=3 (thorough, 16.8 M); all strings of length <=4 (quick) / <=5 (thorough) over a 23-byte grammar alphabet; every head of the subset with an argument from a 32-value boundary list (incl. 2^62, 2^63+-1, 2^64-k for k<=16) in every head width, 0..3 content bytes, in 5 nesting contexts; every generated nested item with <=4 (quick) / <=5 (thorough) nodes, depth <=3, unmutated and with one mutation (head widened, length/count replaced by each boundary value, key pair swapped/duplicated, truncation at every offset, trailing byte). Oracle: reference recogniser refcbor.Deterministic (total, uint64 arithmetic); panic counts as refusal, non-termination (watchdog) is a violation. Non-trivial = reference made a verdict the implementation matched; distinct by input hash.",
 		Assumptions: []string{"refcbor.Deterministic implements RFC 8949 section 4.2.1 for major types 0,2,3,4,5 (text is not required to be valid UTF-8: well-formedness, not validity)", "a panic of cbor.Deterministic is its way of refusing truncated input (required by the repository's own tests)"},
 		Harnesses:   []*mc.Harness{all, reduced, wide, trees, encOut},
 		Guard: func(s map[string]*mc.Stats) error {
